@@ -304,6 +304,12 @@ async fn do_read<TC: akd::configuration::Configuration>(
 /// read-only instance with its own cached storage manager on which the change poller runs (last task, a daemon).
 /// Every request notes the newest epoch the poller had signalled when it started.
 fn run_poll<TC: akd::configuration::Configuration>(base: &[DbRecord], batches: &[Batch], reads: &[ReadOp], reader_cache: &str, prefs: &[usize]) -> PollRun {
+    run_poll_or_flush::<TC>(base, batches, reads, reader_cache, prefs, false)
+}
+
+/// `flusher`: instead of the poller, the last task calls `StorageManager::flush_cache` on the readers' storage
+/// manager twice, at moments the schedule chooses (a plain cache flush takes no lock)
+fn run_poll_or_flush<TC: akd::configuration::Configuration>(base: &[DbRecord], batches: &[Batch], reads: &[ReadOp], reader_cache: &str, prefs: &[usize], flusher: bool) -> PollRun {
     use akd::ecvrf::VRFKeyStorage;
     use std::sync::atomic::AtomicU64;
     let rt = tokio::runtime::Builder::new_current_thread().enable_all().start_paused(true).build().unwrap();
@@ -313,6 +319,7 @@ fn run_poll<TC: akd::configuration::Configuration>(base: &[DbRecord], batches: &
         let wmgr = make_mgr(db.clone(), "none");
         let writer = Directory::<TC, _, _>::new(wmgr, HardCodedAkdVRF {}, AzksParallelismConfig::disabled()).await.unwrap();
         let rmgr = make_mgr(db.clone(), latency.unwrap_or(reader_cache));
+        let rmgr2 = rmgr.clone();
         let reader = akd::directory::ReadOnlyDirectory::<TC, _, _>::new(rmgr, HardCodedAkdVRF {}, AzksParallelismConfig::disabled()).await.unwrap();
         let pk = HardCodedAkdVRF {}.get_vrf_public_key().await.unwrap();
         // warm the reader's cache with the current epoch
@@ -328,9 +335,20 @@ fn run_poll<TC: akd::configuration::Configuration>(base: &[DbRecord], batches: &
         db.ctl.enabled.store(true, Ordering::SeqCst);
         // the poller
         let rp = reader.clone();
+        let dbf = db.clone();
         let hpoll = tokio::spawn(TID.scope(daemon, async move {
-            let _ = rp.poll_for_azks_changes(period, Some(tx)).await;
+            if flusher {
+                let _keep = tx;
+                for _ in 0..2 {
+                    dbf.pause().await;
+                    rmgr2.flush_cache().await;
+                }
+            } else {
+                let _ = rp.poll_for_azks_changes(period, Some(tx)).await;
+            }
         }));
+        let hpoll = Arc::new(hpoll);
+        let hpoll2 = hpoll.clone();
         // forwards each notification: the epoch signalled is the one the poller last read from storage
         let (ctl2, sig2, signals2) = (db.ctl.clone(), sig.clone(), signals.clone());
         let hfwd = tokio::spawn(async move {
@@ -373,7 +391,12 @@ fn run_poll<TC: akd::configuration::Configuration>(base: &[DbRecord], batches: &
         let hr = Arc::new(hr);
         let (hp2, hr2) = (hp.clone(), hr.clone());
         let n = reads.len() + 2;
-        let choices = drive_daemon(&db.ctl, n, daemon, period, 8, prefs, &move |i| if i == 0 { hp2.is_finished() } else if i == daemon { false } else { hr2[i - 1].is_finished() }).await;
+        let choices = if flusher {
+            drive(&db.ctl, n, prefs, &move |i| if i == 0 { hp2.is_finished() } else if i == daemon { hpoll2.is_finished() } else { hr2[i - 1].is_finished() }).await
+        } else {
+            drop(hpoll2);
+            drive_daemon(&db.ctl, n, daemon, period, 8, prefs, &move |i| if i == 0 { hp2.is_finished() } else if i == daemon { false } else { hr2[i - 1].is_finished() }).await
+        };
         db.ctl.enabled.store(false, Ordering::SeqCst);
         // release whatever the poller is waiting for and stop it
         for (_, (_, nfy)) in std::mem::take(&mut *db.ctl.waiting.lock().unwrap()) {
@@ -381,7 +404,9 @@ fn run_poll<TC: akd::configuration::Configuration>(base: &[DbRecord], batches: &
         }
         tokio::task::yield_now().await;
         hpoll.abort();
-        let _ = hpoll.await;
+        for _ in 0..5 {
+            tokio::task::yield_now().await;
+        }
         for _ in 0..20 {
             tokio::task::yield_now().await;
         }
@@ -545,7 +570,8 @@ pub fn step(ex: &mut Exec, st: &mut L1State, op: &str, toks: &[&str]) -> Option<
             ex.stats.bump(op, &format!("readers{}-bound{}-runs{}", reads.len(), bound, (runs / 100) * 100));
             Some(format!("violations={violations}"))
         }
-        "o.sch.poll.replay" if toks.len() >= 4 => {
+        "o.sch.poll.replay" | "o.sch.flush.replay" if toks.len() >= 4 => {
+            let flusher = op == "o.sch.flush.replay";
             // o.sch.poll.replay <schedule, task ids separated by ','> <reader cache> <read ops> || <batches>: ONE schedule, shown in full
             let fx = st.fx.as_ref()?;
             let prefs: Vec<usize> = toks[1].split(',').filter(|t| !t.is_empty()).map(|t| t.parse().ok()).collect::<Option<Vec<_>>>()?;
@@ -567,10 +593,10 @@ pub fn step(ex: &mut Exec, st: &mut L1State, op: &str, toks: &[&str]) -> Option<
             }
             let cfg = fx.cfg.clone();
             let base = fx.records.clone();
-            let r = with_cfg!(cfg.as_str(), TC => run_poll::<TC>(&base, &batches, &reads, &rcache, &prefs));
+            let r = with_cfg!(cfg.as_str(), TC => run_poll_or_flush::<TC>(&base, &batches, &reads, &rcache, &prefs, flusher));
             let base_epoch = st.fx_roots.len() as u64 - 1;
             for (tag, what) in judge_poll(&r, &st.fx_roots, base_epoch, &reads, reads.len() + 1) {
-                ex.fail_tag("C13", &tag, what);
+                ex.fail_tag("C13", &if flusher { tag.replace("poll-", "flush-") } else { tag }, what);
             }
             let calls: Vec<String> = r.trace.iter().map(|(t, k, d)| if d.is_empty() { format!("{t}:{k}") } else { format!("{t}:{k}:{d}") }).collect();
             let show = |x: &(u64, Result<(u64, [u8; 32], bool), String>)| match &x.1 {
@@ -583,7 +609,8 @@ pub fn step(ex: &mut Exec, st: &mut L1State, op: &str, toks: &[&str]) -> Option<
             }
             Some("-".into())
         }
-        "sch.poll" if toks.len() >= 4 => {
+        "sch.poll" | "sch.flush" if toks.len() >= 4 => {
+            let flusher = op == "sch.flush";
             // sch.poll <max preemptions> <reader cache> <read op> [| <read op>]* || <batch> [|| <batch>]
             let fx = st.fx.as_ref()?;
             let bound: usize = toks[1].parse().ok()?;
@@ -607,7 +634,7 @@ pub fn step(ex: &mut Exec, st: &mut L1State, op: &str, toks: &[&str]) -> Option<
             let base = fx.records.clone();
             let base_epoch = st.fx_roots.len() as u64 - 1;
             let roots = st.fx_roots.clone();
-            let max_runs = if st.thorough { 20_000 } else if bound >= 3 { 2_500 } else { 400 };
+            let max_runs = if st.thorough { 20_000 } else if bound >= 3 { 2_500 } else if flusher { 1_200 } else { 400 };
             let daemon = reads.len() + 1;
             let (runs, violations, signalled) = with_cfg!(cfg.as_str(), TC => {
                 let mut stack: Vec<Vec<usize>> = vec![vec![]];
@@ -617,7 +644,7 @@ pub fn step(ex: &mut Exec, st: &mut L1State, op: &str, toks: &[&str]) -> Option<
                     if runs >= max_runs {
                         break;
                     }
-                    let r = run_poll::<TC>(&base, &batches, &reads, &rcache, &prefs);
+                    let r = run_poll_or_flush::<TC>(&base, &batches, &reads, &rcache, &prefs, flusher);
                     let chosen: Vec<usize> = r.choices.iter().map(|c| c.chosen).collect();
                     if !seen.insert(chosen.clone()) {
                         continue;
@@ -634,7 +661,8 @@ pub fn step(ex: &mut Exec, st: &mut L1State, op: &str, toks: &[&str]) -> Option<
                                 p.push(*a);
                                 let mut en = enabled[..s].to_vec();
                                 en.push(enabled[s].clone());
-                                if preemptions_daemon(&p, &en, daemon) <= bound {
+                                let np = if flusher { preemptions(&p, &en) } else { preemptions_daemon(&p, &en, daemon) };
+                                if np <= bound {
                                     stack.push(p);
                                 }
                             }
@@ -643,7 +671,7 @@ pub fn step(ex: &mut Exec, st: &mut L1State, op: &str, toks: &[&str]) -> Option<
                     for (tag, what) in judge_poll(&r, &roots, base_epoch, &reads, daemon) {
                         violations += 1;
                         if violations <= 3 {
-                            ex.fail_tag("C13", &tag, what);
+                            ex.fail_tag("C13", &if flusher { tag.replace("poll-", "flush-") } else { tag }, if flusher { what.replace("poller = task", "flusher = task") } else { what });
                         }
                     }
                 }
